@@ -1,4 +1,145 @@
-(** Properties/C12.v — placeholder while the proofs are being moved in. *)
-From PintV Require Import Model.UC Model.CtxState.
-Example C12_placeholder : spec_run ([], []) [OEnable ["a"; "b"] ∅; ODisable (Some 1)] = (["a"], []).
-Proof. vm_compute. reflexivity. Qed.
+(** Properties/C12.v — context activation is scoped, stack-like, atomic and leaves no residue.
+    Only statements, each closed by a lemma of Proofs/CtxStateProofs.v.  [quirks] are the defect
+    switches of Model/CtxState.v: [faithful] is pint as it is, [repaired] has every deviation off;
+    a theorem that needs a switch off says so in its hypotheses (the guard), and the matching
+    [_refuted] theorem exhibits a witness with the switch on. *)
+From stdpp Require Import gmap strings list.
+From PintV Require Import Model.UC Model.CtxState Proofs.CtxStateProofs.
+
+(** ** The active contexts are exactly the stack the operations imply.
+    For EVERY quirk setting, registry, pool of Context objects, start state and operation sequence
+    (no length bound) in which no operation fails: the names of the active chain and the open
+    with-blocks are those of the reference stack machine [spec_run]. *)
+Theorem C12_active_is_stack qk cfg st ops :
+  run_ok qk cfg st ops = true →
+  (active_names (run qk cfg st ops).2, rs_frames (run qk cfg st ops).2)
+  = spec_run (active_names st.2, rs_frames st.2) ops.
+Proof. exact (active_is_stack qk cfg st ops). Qed.
+
+(** ** Once a context has been left every answer equals what it was before entry.
+    Full statement (property text): for every reachable state [st] (any history [ops], including
+    defines and failed activations), every with-block [OWithEnter cs kw :: body ++ [closer]] whose
+    body is balanced (nested blocks left normally or through an exception, enable/disable pairs,
+    probes) and in which nothing fails, and EVERY probe [q]:
+        answer after the block = answer before the block.
+    It is proved under the guard [q_rebuild_on_hit = false] (F23) for conversions, root units and
+    parsing, and additionally [q_base_cache_ctx_blind = false] (F7) for get_base_units; both
+    guards are necessary ([C12_exit_restores_refuted], [C12_exit_restores_base_refuted]). *)
+Theorem C12_exit_restores qk cfg os base ops cs kw body closer q :
+  q_rebuild_on_hit qk = false → balanced body → is_closer closer = true →
+  let st := run qk cfg (os, init_state base) ops in
+  let blk := OWithEnter cs kw :: body ++ [closer] in
+  run_ok qk cfg st blk = true →
+  q_base_cache_ctx_blind qk = false ∨ is_pbase q = false →
+  answer_of qk cfg (run qk cfg st blk).2 q = answer_of qk cfg st.2 q.
+Proof. exact (exit_restores qk cfg os base ops cs kw body closer q). Qed.
+
+(** the same for the repaired model, every probe *)
+Theorem C12_exit_restores_repaired cfg os base ops cs kw body closer q :
+  balanced body → is_closer closer = true →
+  let st := run repaired cfg (os, init_state base) ops in
+  let blk := OWithEnter cs kw :: body ++ [closer] in
+  run_ok repaired cfg st blk = true →
+  answer_of repaired cfg (run repaired cfg st blk).2 q = answer_of repaired cfg st.2 q.
+Proof.
+  intros Hb Hc st blk Hok.
+  exact (exit_restores repaired cfg os base ops cs kw body closer q eq_refl Hb Hc Hok (or_introl eq_refl)).
+Qed.
+
+(** any balanced block (also enable ... disable(len)) from any state satisfying the invariant *)
+Theorem C12_block_restores qk cfg st blk q :
+  q_rebuild_on_hit qk = false → inv st.2 → balanced blk → run_ok qk cfg st blk = true →
+  q_base_cache_ctx_blind qk = false ∨ is_pbase q = false →
+  answer_of qk cfg (run qk cfg st blk).2 q = answer_of qk cfg st.2 q.
+Proof. exact (block_restores qk cfg st blk q). Qed.
+
+(** pint as it is: get_base_units is not restored (F7) *)
+Theorem C12_exit_restores_base_refuted :
+  ∃ cfg st blk q,
+    balanced blk ∧ run_ok (QK false true false false) cfg st blk = true ∧ run_ok faithful cfg st blk = true ∧
+    answer_of (QK false true false false) cfg (run (QK false true false false) cfg st blk).2 q
+      ≠ answer_of (QK false true false false) cfg st.2 q ∧
+    answer_of faithful cfg (run faithful cfg st blk).2 q ≠ answer_of faithful cfg st.2 q.
+Proof. exact exit_restores_base_refuted. Qed.
+
+(** pint as it is: a unit defined inside an overlay is lost when an inner block is left (F23) *)
+Theorem C12_exit_restores_refuted :
+  ∃ cfg st0 ops blk q,
+    let qk := QK false false false true in
+    balanced blk ∧ run_ok qk cfg (run qk cfg st0 ops) blk = true ∧ run_ok faithful cfg (run faithful cfg st0 ops) blk = true ∧
+    answer_of qk cfg (run qk cfg (run qk cfg st0 ops) blk).2 q ≠ answer_of qk cfg (run qk cfg st0 ops).2 q ∧
+    answer_of faithful cfg (run faithful cfg (run faithful cfg st0 ops) blk).2 q
+      ≠ answer_of faithful cfg (run faithful cfg st0 ops).2 q.
+Proof. exact exit_restores_refuted. Qed.
+
+(** ** A failed activation changes nothing.
+    Guarded by [q_partial_activation = false] (F6) and [q_rebuild_on_hit = false]: the registry
+    state after the failed [enable_contexts] / [with] entry IS the state before it, and with
+    [q_rewrite_shared = false] so are the shared Context objects. *)
+Theorem C12_failed_activation_atomic qk cfg os base ops cs kw os' s' e :
+  q_partial_activation qk = false → q_rebuild_on_hit qk = false →
+  let st := run qk cfg (os, init_state base) ops in
+  do_enable qk cfg st.1 st.2 cs kw = (os', s', Some e) →
+  s' = st.2 ∧ (q_rewrite_shared qk = false → os' = st.1).
+Proof. exact (failed_activation_atomic_reachable qk cfg os base ops cs kw os' s' e). Qed.
+(** as a statement about operations of the repaired model *)
+Theorem C12_failed_activation_atomic_repaired cfg os base ops o e :
+  let st := run repaired cfg (os, init_state base) ops in
+  (∃ cs kw, o = OEnable cs kw ∨ o = OWithEnter cs kw) →
+  (step repaired cfg st o).2 = OFailed e → (step repaired cfg st o).1 = st.
+Proof. exact (failed_activation_atomic_repaired cfg os base ops o e). Qed.
+(** pint as it is (F6) *)
+Theorem C12_failed_activation_atomic_refuted :
+  ∃ cfg st cs kw,
+    let r := step faithful cfg st (OEnable cs kw) in
+    is_failed r.2 = true ∧ active_names r.1.2 ≠ active_names st.2 ∧ n_layers r.1.2 ≠ n_layers st.2
+    ∧ answer_of faithful cfg r.1.2 p_yard_inch ≠ answer_of faithful cfg st.2 p_yard_inch.
+Proof. exact failed_activation_atomic_refuted. Qed.
+
+(** ** Context objects are not modified by being activated.
+    Parameterisation never writes to its argument: under every quirk setting the defaults and the
+    redefinitions of every Context object are the same after any operation sequence. *)
+Theorem C12_activation_pure_on_context qk cfg st ops name :
+  (co_defaults <$> (run qk cfg st ops).1 !! name) = (co_defaults <$> st.1 !! name) ∧
+  (co_redefs <$> (run qk cfg st ops).1 !! name) = (co_redefs <$> st.1 !! name).
+Proof. exact (activation_pure_on_context qk cfg st ops name). Qed.
+(** guarded by [q_rewrite_shared = false] (F8) nothing at all is written ... *)
+Theorem C12_shared_context_unmodified qk cfg st ops :
+  q_rewrite_shared qk = false → (run qk cfg st ops).1 = st.1.
+Proof. exact (shared_context_unmodified qk cfg st ops). Qed.
+(** ... and a second registry sharing the objects is not influenced *)
+Theorem C12_other_registry_unaffected qk cfgs w ops :
+  q_rewrite_shared qk = false → Forall (λ io : bool * op, io.1 = false) ops →
+  w_r2 (wrun qk cfgs w ops) = w_r2 w ∧ w_objs (wrun qk cfgs w ops) = w_objs w.
+Proof. exact (other_registry_unaffected qk cfgs w ops). Qed.
+(** pint as it is (F8) *)
+Theorem C12_shared_context_unmodified_refuted :
+  ∃ cfg st ops, (run faithful cfg st ops).1 ≠ st.1 ∧
+    (map rule_key ∘ co_rules <$> (run faithful cfg st ops).1 !! "rc") ≠ (map rule_key ∘ co_rules <$> st.1 !! "rc").
+Proof. exact shared_context_unmodified_refuted. Qed.
+Theorem C12_other_registry_refuted :
+  ∃ cfgs w ops1 ops2 q,
+    Forall (λ io : bool * op, io.1 = false) ops1 ∧ Forall (λ io : bool * op, io.1 = true) ops2 ∧
+    answer_of faithful cfgs.2 (w_r2 (wrun faithful cfgs w (ops1 ++ ops2))) q
+      ≠ answer_of faithful cfgs.2 (w_r2 (wrun faithful cfgs w ops2)) q.
+Proof. exact other_registry_refuted. Qed.
+
+(** ** Non-vacuity: the hypotheses are met by concrete, non-trivial histories *)
+Example C12_active_is_stack_nonvacuous :
+  run_ok faithful ex_cfg ex_st ex_ops = true ∧ run_ok repaired ex_cfg ex_st ex_ops = true ∧
+  spec_run ([], []) ex_ops = (["rc"; "rb"; "ra"; "rc"], [2%nat]) ∧
+  active_names (run faithful ex_cfg ex_st ex_ops).2 = ["rc"; "rb"; "ra"; "rc"].
+Proof. exact active_is_stack_nonvacuous. Qed.
+Example C12_exit_restores_nonvacuous :
+  balanced ex_body ∧
+  run_ok repaired ex_cfg (run repaired ex_cfg ex_st ex_prefix) (OWithEnter ["ra"] ∅ :: ex_body ++ [OWithExit]) = true ∧
+  answer_of repaired ex_cfg (run repaired ex_cfg (run repaired ex_cfg ex_st ex_prefix) [OWithEnter ["ra"] ∅]).2 p_m_s
+    ≠ answer_of repaired ex_cfg (run repaired ex_cfg ex_st ex_prefix).2 p_m_s ∧
+  outs repaired ex_cfg ex_st ex_prefix = [ODone; ODone; ODone; ODone; OFailed EValue].
+Proof. exact exit_restores_nonvacuous. Qed.
+Example C12_failed_activation_nonvacuous :
+  let st := run repaired ex_cfg ex_st [OEnable ["rb"] ∅; OEnable ["ra"] ∅] in
+  (step repaired ex_cfg st (OEnable ["rc"; "rd"] ∅)).2 = OFailed EValue ∧
+  (step repaired ex_cfg st (OWithEnter ["nosuch"] ∅)).2 = OFailed EKey ∧
+  active_names st.2 = ["ra"; "rb"].
+Proof. exact failed_activation_nonvacuous. Qed.
